@@ -5,7 +5,7 @@
    GSPCrash / GSVCrash = an exception other than ValueError reaches the caller (argparse turns ValueError and OSError
    into a command line error, anything else is a traceback). *)
 From Coq Require Import ZArith List Bool Ascii String Sorted.
-From Cnfgen Require Import Text GraphSpec GraphGen GraphSpecFacts.
+From Cnfgen Require Import Text GraphSpec GraphGen GraphSpecFacts GraphSpecFloatFacts.
 Import ListNotations.
 Open Scope Z_scope.
 
@@ -75,7 +75,9 @@ Print Assumptions graphspec_make_never_crashes.
 (* the hypothesis is not idle: on other dictionaries obtain_graph does raise AssertionError / TypeError *)
 Theorem graphspec_validate_needs_wf :
   gs_validate (0, 0) (mk_gs_parsed GSDag (Some (lit "gnp")) (Some [lit "3"; lit ".5"]) true None None []) = GSVCrash KAssert
-  /\ gs_validate (0, 0) (mk_gs_parsed GSBipartite (Some (lit "shift")) None true None None []) = GSVCrash KType.
+  /\ gs_validate (0, 0) (mk_gs_parsed GSBipartite (Some (lit "shift")) None true None None []) = GSVCrash KType
+  /\ gs_validate (0, 0) (mk_gs_parsed GSBipartite (Some (lit "empty")) (Some [lit "2"; lit "2"]) true None None
+                                      [(lit "splitedges", [lit "0"])]) = GSVCrash KType.
 Proof. exact gs_validate_needs_wf. Qed.
 Print Assumptions graphspec_validate_needs_wf.
 
@@ -156,6 +158,20 @@ Theorem graphspec_torus_guard_refuted :
                         plan = [SGen c] /\ ~ gs_torus_ok c.
 Proof. exact gs_torus_guard_refuted. Qed.
 Print Assumptions graphspec_torus_guard_refuted.
+
+(* ---- the two comparisons made with a float token, against their arithmetic meaning ---- *)
+(* `p <= 1` after rounding to the nearest double (ties to even)  iff  m * 10^e <= 1 + 2^-53 *)
+Theorem graphspec_le_one_meaning : forall m e, 0 < m ->
+  (gs_le_one (GSDec false m e) = true <->
+   m * 2 ^ 53 * 10 ^ (Z.max 0 e) <= (2 ^ 53 + 1) * 10 ^ (Z.max 0 (- e))).
+Proof. exact gs_le_one_spec. Qed.
+Print Assumptions graphspec_le_one_meaning.
+(* `0 <= p` for a negative token  iff  its magnitude m * 10^e is at most 2^-1075 (it is read as -0.0) *)
+Theorem graphspec_ge_zero_meaning : forall m e, 0 < m ->
+  (gs_ge_zero (GSDec true m e) = true <->
+   m * 2 ^ 1075 * 10 ^ (Z.max 0 e) <= 10 ^ (Z.max 0 (- e))).
+Proof. exact gs_ge_zero_spec. Qed.
+Print Assumptions graphspec_ge_zero_meaning.
 
 Example graphspec_nonvacuous :
   let t := map lit in
